@@ -18,6 +18,7 @@ Definition op_pre (h : heap) (o : op) : Prop :=
   | ORestack c w => is_restack c = true /\ exists cw, findw h w = Some cw /\ (w_parent cw = None \/ anc h w root)
   | OFocus w | OGetRoot w => anc h w root
   | OFlush w => w = root /\ findw h root <> None
+  | OTouch w j walk => findw h w <> None /\ (forall a, j = Some a -> findw h a <> None) /\ (walk = true -> anc h w root)
   | OKey | OMouse _ | OFrameRef _ | OFrameUnref _ => False
   | ONop => True
   end.
@@ -43,6 +44,9 @@ Lemma run_op_S : forall V f o,
    | OBind w id k m r acts => upd w (fun c => set_hs c (w_hs c ++ [mkH id k m r acts]))
    | OUnbind w id => upd w (fun c => set_hs c (filter (fun hd => negb (h_id hd =? id)) (w_hs c)))
    | OGeom w => getw w ;;; ret tt
+   | OTouch w j walk =>
+     getw w ;;; (match j with Some a => getw a ;;; ret tt | None => ret tt end) ;;;
+     if walk then scroll_up f w else ret tt
    | ONop => ret tt
    | OFrameRef _ | OFrameUnref _ => ret tt
    end).
@@ -143,6 +147,15 @@ Proof.
   - (* OGeom *)
     rewrite <- Fw1 in Hpre. destruct (live_some h1 w Hpre) as [cw Hw].
     unfold bind. rewrite (getw_run h1 w cw Hw). cbn. exact HI1.
+  - (* OTouch *)
+    destruct Hpre as [Hpw [Hpj Hpa]]. rewrite <- Fw1 in Hpw. destruct (live_some h1 w Hpw) as [cw Hw].
+    unfold bind at 1. rewrite (getw_run h1 w cw Hw). unfold bind at 1.
+    assert (Hj : (match j with Some a => getw a ;;; ret tt | None => ret tt end) h1 = Ok tt h1).
+    { destruct j as [a|]; [|reflexivity]. pose proof (Hpj a eq_refl) as Hla. rewrite <- Fw1 in Hla.
+      destruct (live_some h1 a Hla) as [ca Ha]. unfold bind. rewrite (getw_run h1 a ca Ha). reflexivity. }
+    rewrite Hj. destruct walk; [|cbn; exact HI1].
+    pose proof (scroll_up_spec [] f w h1 HI1 (Hanc1 _ _ (Hpa eq_refl))) as Hs.
+    destruct (scroll_up f w h1) as [u h2| |]; [|contradiction|exact I]. subst h2. exact HI1.
   - (* ONop *)
     cbn. exact HI1.
 Qed.
@@ -367,6 +380,7 @@ Definition op_preb (h : heap) (o : op) : bool :=
     end
   | OFocus w | OGetRoot w => intreeb (depth_fuel h) h w
   | OFlush w => Pos.eqb w root && liveb h root
+  | OTouch w j walk => liveb h w && (match j with Some a => liveb h a | None => true end) && (negb walk || intreeb (depth_fuel h) h w)
   | OKey | OMouse _ | OFrameRef _ | OFrameUnref _ => false
   | ONop => true
   end.
@@ -380,6 +394,10 @@ Proof.
   - eapply intreeb_anc; eauto.
   - eapply intreeb_anc; eauto.
   - apply andb_prop in H. destruct H as [H1 H2]. apply Pos.eqb_eq in H1. split; [exact H1|apply liveb_live; exact H2].
+  - apply andb_prop in H. destruct H as [H12 H3]. apply andb_prop in H12. destruct H12 as [H1 H2].
+    split; [apply liveb_live; exact H1|]. split.
+    + intros a Ea. subst j. apply liveb_live. exact H2.
+    + intro Ew. subst walk. cbn in H3. eapply intreeb_anc; eauto.
 Qed.
 
 Fixpoint client_okb (fuel : nat) (l : list op) (h : heap) : bool :=
